@@ -239,6 +239,7 @@ theorem doRegister_inv (c : Ctx) (U : List Nat) (hn : U.Nodup) (s s' : St) (fr :
   · -- first registration (also: again, from the blank-flag state)
     split at h; · cases h
     split at h; · cases h
+    split at h; · cases h
     rename_i hbal
     injection h with h; subst h
     have hd0 : 0 ≤ (s.accts fr).deposit.getD 0 := hI.dep fr
